@@ -293,6 +293,24 @@ theorem C29_md5_other_format (st : Store) (u resp salt stored : Bytes)
   have : stripPrefix md5Tag stored = none := (stripPrefix_none _ _).mpr hs
   simp [verifyMd5, h, this]
 
+/-- format guard (no pass-the-hash): whenever `verify_md5` accepts, the user's stored secret has the
+    `{MD5}` prefix and the response is one of the two expected digests of the password behind it -/
+theorem C29_md5_accept_implies_md5_entry (st : Store) (u resp salt : Bytes)
+    (h : verifyMd5 st u resp salt = true) :
+    ∃ stored p, getPassword st u = some stored ∧ stored = md5Tag ++ p ∧
+      startsWith md5Tag stored = true ∧
+      (resp = md5RespPrefix ++ digest p u salt ∨ resp = digest p u salt) := by
+  obtain ⟨p, hp, hr⟩ := (C29_md5_iff_simple st u resp salt).mp h
+  exact ⟨md5Tag ++ p, p, hp, rfl, (startsWith_iff _ _).mpr ⟨p, rfl⟩, hr⟩
+
+/-- for a stored secret that is not in `{MD5}` format (an Argon2 string, a bare digest, anything
+    else) `verify_md5` is false for **every** response and salt — in particular for every response
+    an attacker can compute from the stored string itself -/
+theorem C29_md5_non_md5_secret_rejects_all (st : Store) (u stored : Bytes)
+    (hg : getPassword st u = some stored) (hs : startsWith md5Tag stored = false) :
+    ∀ resp salt, verifyMd5 st u resp salt = false :=
+  fun resp salt => C29_md5_other_format st u resp salt stored hg hs
+
 /-- a hash created by `add_user` is never usable for the MD5 protocol -/
 theorem C29_md5_argon2_entry (C : Crypto) (st : Store) (u resp salt p s : Bytes)
     (h : getPassword st u = some (C.hash p s)) : verifyMd5 st u resp salt = false := by
